@@ -5,6 +5,7 @@ package corerad
 
 import (
 	"bytes"
+	"fmt"
 	"log"
 	"net"
 	"net/netip"
@@ -163,8 +164,12 @@ func TestVF_Verify(t *testing.T) {
 			// The same comparison through the advertiser's receive path.
 			var counted []any
 			vm := vfNewMetrics(nil)
-			vm.onUpdate = func(name string, labels []string, _ float64) {
+			vm.onUpdate = func(name string, labels []string, v float64) {
 				if name == "corerad_advertiser_inconsistencies_total" && len(labels) == 3 {
+					if v != 1 { // "counted once": an increment by anything but one is not a count of this inconsistency
+						counted = append(counted, []any{fmt.Sprintf("increment-of-%v:%s", v, labels[2]), labels[1]})
+						return
+					}
 					counted = append(counted, []any{labels[2], labels[1]})
 				}
 			}
